@@ -17,7 +17,7 @@ verus! {
 //@struct gneiss-mqtt/src/mqtt/mod.rs UserProperty clonespec
 //@struct gneiss-mqtt/src/mqtt/mod.rs Subscription
 //@struct gneiss-mqtt/src/mqtt/mod.rs AuthPacket
-//@struct gneiss-mqtt/src/mqtt/mod.rs ConnackPacket
+//@struct gneiss-mqtt/src/mqtt/mod.rs ConnackPacket defaultspec
 //@struct gneiss-mqtt/src/mqtt/mod.rs ConnectPacket
 //@struct gneiss-mqtt/src/mqtt/mod.rs DisconnectPacket
 //@struct gneiss-mqtt/src/mqtt/mod.rs PingreqPacket
